@@ -180,6 +180,12 @@ def _t3(ctx):
     seeded = any(isinstance(v_, ast.Call) and call_name(v_) in ("deepcopy", "copy", "model_copy") and not isinstance(v_.args[0] if v_.args else None, ast.Constant)
                  for s in seeds for v_ in _vals(s.value))
     ctx.check(seeded, R, fi, seeds[-1], "the result is never seeded from the matching per-Einsum entry", "result seeded from a copy of the matching per-Einsum entry")
+    # ... and the copy is deep: defaults are appended to the result's list, which a shallow copy shares with the spec's own entry
+    shallow = [v_ for s_ in seeds for v_ in _vals(s_.value) if isinstance(v_, ast.Call) and ((call_name(v_) == "model_copy" and not (kwarg(v_, "deep") is not None and isinstance(kwarg(v_, "deep"), ast.Constant) and kwarg(v_, "deep").value is True))
+               or (call_name(v_) == "copy" and norm(v_.func) == "copy.copy"))]
+    appends_ = [c for c in fi.calls("append") if norm(c.func.value).startswith("rename.")]
+    ctx.check(not (shallow and appends_), "C29-T5", fi, shallow[0] if shallow else seeds[-1], "the per-Einsum entry is copied shallowly and the defaults are then appended to its list: the spec's own entry grows, and after the defaults are replaced "
+              "a second evaluation still resolves the old ones", "defaults appended to a deep copy")
 
     fe = ctx.func(WL, "Einsum._eval_expressions", R)
     cfg = ctx.cfg(fe)
@@ -275,6 +281,7 @@ def thorough(ctx):
 
 
 VARIANTS = [
+    {"kind": "F", "name": "shallow-copy-of-the-per-einsum-entry", "rule": "C29-T5", "edits": [(REN, "copy.deepcopy(matches[0])", "matches[0].model_copy()")]},
     {"kind": "F", "name": "zero-count-not-enforced", "rule": "C29-T4", "edits": [(REN, "            expected_count is not None\n            and isinstance(evaluated.source, InvertibleSet)", "            expected_count\n            and isinstance(evaluated.source, InvertibleSet)")]},
     {"kind": "F", "name": "revert-lookup-str-in-list", "rule": "C29-T1", "edits": [
         (REN, "        matches = [e for e in self.einsums if e.name == einsum_name]\n        if not matches:", "        matches = [e for e in self.einsums]\n        if einsum_name not in self.einsums:")]},
